@@ -67,7 +67,7 @@ func checkC08(c *Ctx) {
 	if sub := c.subscribeHandler(); sub != nil {
 		g := c.handlerGraph()
 		if cs := r.caseOf("SubscribeMessage"); cs != nil {
-			retainedSend := ev{"retained delivery", mAny(mCallee(c.P.Func("service", "service", "publish")), mAnd(mCallee(r.RingWrite), mArgDyn(1, "PublishMessage")))}
+			retainedSend := ev{name: "retained delivery", m: mAny(mCallee(c.P.Func("service", "service", "publish")), mAnd(mCallee(r.RingWrite), mArgDyn(1, "PublishMessage")))}
 			c.beforeAlways(g, caseEntry(g, *cs), "SUBSCRIBE:retained-after-SUBACK", c.evAckWrite("SubackMessage"), retainedSend, c.P.InstrPos(cs.Entry.Instrs[0]), "a retained message can be delivered before the SUBACK is written")
 		}
 	}
